@@ -58,6 +58,10 @@ def rand_points(rng, nprng, d, n, shape):
         P[:, d - 1] *= 10 ** rng.uniform(-7, -2)
         Q = np.linalg.qr(nprng.standard_normal((d, d)))[0]
         P = P @ Q.T
+    elif shape == "far-cluster":       # one cluster whose distance from the origin dwarfs its extent (map coordinates)
+        P = nprng.standard_normal((n, d)) * rng.uniform(0.2, 2.0)
+        P = P + nprng.standard_normal(d) * 10 ** rng.uniform(1.0, 4.0)
+        return P
     else:                              # clustered: a few tight clusters away from the origin
         k = rng.randint(3, 5)
         centres = nprng.standard_normal((k, d)) * 50
@@ -81,7 +85,7 @@ def gen_cases(rng, nprng, count, maxn, noisy):
     cases = []
     for _ in range(count):
         d = rng.choice([2, 3, 3])
-        shape = rng.choice(["generic", "coplanar", "coplanar", "nearly-coplanar", "clustered"])
+        shape = rng.choice(["generic", "coplanar", "coplanar", "nearly-coplanar", "clustered", "far-cluster"])
         n = rng.choice([3, 3, 4, 5, rng.randint(3, maxn), rng.randint(3, maxn)])
         S = rand_points(rng, nprng, d, n, shape)
         R, ang = rand_rotation(rng, nprng, d)
@@ -208,7 +212,9 @@ def geometry(Sp, Tp, ty, s):
         return None
     kappa = s[0] / (s[d - 2] + s[d - 1]) if (s[d - 2] + s[d - 1]) > 0 else float("inf")
     lever = 1.0 + off / spread
-    tol = max(BASE[ty], 200 * EPS[ty] * kappa * lever * lever)
+    # a centred (two-pass) covariance loses eps*offset/spread in the subtraction of the mean: the admissible error is
+    # LINEAR in the lever; a quadratic allowance would hide a single-pass (sum - N*mean*mean) covariance
+    tol = max(BASE[ty], 200 * EPS[ty] * kappa * lever)
     return tol, spread, off, kappa
 
 
@@ -359,7 +365,7 @@ CHECK = {
                 "numpy/LAPACK SVD as the independent Kabsch/Umeyama reference"],
     "assumptions": ["theorems are over the reals; rounding is observed by the correspondence run, not proved",
                     "'isotropic preconditioning of both sets' = PreconditionedPointSet(points, scale) with the same scale on both sets",
-                    "tolerance on R: max(1e-9|1e-4, 200 eps kappa (1+offset/spread)^2), kappa = sigma_1/(sigma_{d-1}+sigma_d) of the "
+                    "tolerance on R: max(1e-9|1e-4, 200 eps kappa (1+offset/spread)), kappa = sigma_1/(sigma_{d-1}+sigma_d) of the "
                     "cross covariance (conditioning of the polar factor); all-collinear sets are outside the property"],
     "run_timeout": 900,
     "manifest": {
